@@ -164,7 +164,7 @@ func snap(s storage.Storage) *snapshot {
 	return out
 }
 
-var alphabet = []string{"a", "z", "0", "-", ".", "_", " ", "\"", "\\", "/", "<", ">", "&", "\n", "\t", "ä", "ß", "世", "界", "\U0001F344", " ", "\u0000", "\u007f", "%", "{", "}", "[", ","}
+var alphabet = []string{"a", "z", "A", "Z", "Ä", "\u0130", "\u1e9e", "0", "-", ".", "_", " ", "\"", "\\", "/", "<", ">", "&", "\n", "\t", "ä", "ß", "世", "界", "\U0001F344", " ", "\u0000", "\u007f", "%", "{", "}", "[", ","}
 
 func genString(tp *core.Tape) string {
 	switch tp.Intn(6) {
@@ -260,6 +260,16 @@ func genMutations(tp *core.Tape, n int, pool *[]netip.Addr, domains *[]string, e
 			muts = append(muts, func(s storage.Storage) { cp := *r; _ = s.SaveRouter(&cp) })
 		case 2: // save mapping
 			d := genString(tp) + ".myco"
+			if len(*domains) > 0 && tp.Chance(1, 5) {
+				// a second mapping whose name differs from an earlier one only in case: the
+				// storage keeps names as given, these are two entries
+				prev := (*domains)[tp.Intn(len(*domains))]
+				if up := strings.ToUpper(prev); up != prev {
+					d = up
+				} else if lo := strings.ToLower(prev); lo != prev {
+					d = lo
+				}
+			}
 			*domains = append(*domains, d)
 			ip := genAddr(tp)
 			muts = append(muts, func(s storage.Storage) { _ = s.SaveMapping(d, ip) })
